@@ -2714,6 +2714,10 @@ def distributed_shampoo(
       return root[:, :precond_dim], metrics
 
     def new_mi_pth_root(stats, exponents, padding_start, prev):
+      # Both branches of the cond below are traced, so the (padded) statistics
+      # must be large enough for the compressed representation.
+      assert _should_compress(compression_rank, stats.shape[0]), (
+          "all layers are too small for compression_rank")
       # padding_start == true unpacked gradient dimension size.
       should_compress = _should_compress(compression_rank, padding_start)
 
